@@ -35,7 +35,7 @@ def run_job(job):
     evals = 0
     seen = set()
     with okv.Session(su) as s:
-        nworlds = 2 if tier == "quick" else 12
+        nworlds = 2 if tier == "quick" else 60
         for wi in range(nworlds):
             rng = s.rng("r", proto.H("c06", su, job["seed"], wi))
             a = s.cmd("setup_new", rng=rng, out="A")
